@@ -231,6 +231,50 @@ func vc25_nopanic(n int) {
 	_ = RuneCount(s)
 }
 
+// UnmarshalJSON and UnmarshalYAML are documented to return an error, not to
+// panic, when v is nil or not a (non-nil) pointer, whatever its type.
+func vc25_unmarshal_badarg() {
+	s := vsym_string(2)
+	var v any
+	switch vsym_choice(12) {
+	case 0:
+		v = nil
+	case 1:
+		v = 5
+	case 2:
+		v = "x"
+	case 3:
+		v = 1.5
+	case 4:
+		v = true
+	case 5:
+		v = struct{ A int }{1}
+	case 6:
+		v = []int{}
+	case 7:
+		v = map[string]int{}
+	case 8:
+		v = [2]int{}
+	case 9:
+		v = (*int)(nil)
+	case 10:
+		v = func() {}
+	case 11:
+		v = uint8(3)
+	}
+	var e1, e2 error
+	func() {
+		defer func() {
+			vassert(recover() == nil, "unmarshal-returns-an-error-instead-of-panicking")
+		}()
+		e1 = UnmarshalJSON(s, v)
+		e2 = UnmarshalYAML(s, v)
+	}()
+	vassert(e1 != nil && e2 != nil, "unmarshal-into-nil-or-non-pointer-is-an-error")
+	vreach("end")
+}
+
+func vh_c25_unmarshal_badarg_q() { vc25_unmarshal_badarg() }
 func vh_c25_queryescape_q()   { vc25_queryescape(3) }
 func vh_c25_queryescape_t()   { vc25_queryescape(4) }
 func vh_c25_abbreviate_q()    { vc25_abbreviate(4) }
